@@ -1,0 +1,34 @@
+//go:build verif
+
+package midix
+
+import "fmt"
+
+// VerifTrackState is a read-only snapshot of one track for the verification harness.
+type VerifTrackState struct {
+	Pending uint32
+	Deltas  []uint32
+	Kinds   []string
+}
+
+// VerifWriterState is a read-only snapshot of the writer for the verification harness.
+type VerifWriterState struct {
+	Pending uint32
+	Tracks  []VerifTrackState
+}
+
+// VerifState returns the pending delta of the writer and, per track, its pending delay and ops.
+func (w *MIDIWriter) VerifState() VerifWriterState {
+	s := VerifWriterState{Pending: w.tickDelta}
+	set := w.set.Set()
+	for i := range set.Len() {
+		t := set.Get(i)
+		ts := VerifTrackState{Pending: t.tickDelta}
+		for _, o := range t.ops {
+			ts.Deltas = append(ts.Deltas, o.TickDelta)
+			ts.Kinds = append(ts.Kinds, fmt.Sprintf("%T", o.Func))
+		}
+		s.Tracks = append(s.Tracks, ts)
+	}
+	return s
+}
